@@ -2,9 +2,11 @@ package props
 
 import (
 	"bytes"
+	"encoding/binary"
 	"fmt"
 	"os"
 	"path/filepath"
+	"time"
 
 	"github.com/gokrazy/rsync/rsyncd"
 	"github.com/gokrazy/rsync/verifharness/core"
@@ -76,6 +78,18 @@ func c03Session(role int, sh c03Shape, mk func(seed int32) []byte, pre func(dest
 		// the daemon chooses the seed: build the reply with the session's seed
 		return &peer.Reply{Raw: mk(script.Seed)}
 	}
+	c03Restamped = ""
+	var mtBefore int64
+	if st, err := os.Lstat(filepath.Join(dest, "f")); err == nil {
+		mtBefore = st.ModTime().UnixNano()
+	}
+	defer func() {
+		// a destination file that was not replaced must not be re-stamped with the new version's time either:
+		// the update rule (C12) would take the stale content for up to date from then on
+		if st, err := os.Lstat(filepath.Join(dest, "f")); err == nil && onReq == nil && mtBefore != 0 && !ok && st.ModTime().UnixNano() != mtBefore {
+			c03Restamped = fmt.Sprintf("modification time of the kept file changed from %d to %d", mtBefore, st.ModTime().UnixNano())
+		}
+	}()
 	var e1, e2 error
 	if role == 0 {
 		e1, _, _, e2, _ = peer.ClientVsScriptedServer([]string{"-rt"}, dest, script)
@@ -96,7 +110,13 @@ func c03Raw(idx int32, sh c03Shape, toks []rp.Token, trailer [16]byte) []byte {
 }
 
 // c03Judge applies the property's outcome rule.
+// c03Restamped is set by c03Session (worker-local; sessions run one after another).
+var c03Restamped string
+
 func c03Judge(ok bool, after []byte, present bool, sh c03Shape, prior []byte, priorPresent bool, what, detail string, feats ...string) *core.Failure {
+	if !ok && c03Restamped != "" && present && bytes.Equal(after, prior) {
+		return core.Fail("rejected_file_restamped", fmt.Sprintf("%s: the session failed and the previous content was kept, but %s [%s]", what, c03Restamped, detail), feats...)
+	}
 	if ok {
 		if present && bytes.Equal(after, sh.target) {
 			return nil
@@ -141,7 +161,17 @@ func c03BuildFlips(tier string) core.Source {
 				raw[bit/8] ^= 1 << (bit % 8)
 				return raw
 			}
+			if c03DeclaresHuge(mk(0)) {
+				// a flip that turns a literal length into >= 16 MiB: the receiver allocates what the peer declares
+				// (declared huge sizes are a resource question, not one of publishing wrong data)
+				cnt(&res, "flips_skipped_declared_huge", 1)
+				continue
+			}
+			t0 := time.Now()
 			ok, after, present, detail := c03Session(c.role, sh, mk, nil, nil)
+			if d := time.Since(t0); d > 2*time.Second {
+				core.Note("C03 slow session (%v): role=%d shape=%s bit %d: %s", d.Round(time.Millisecond), c.role, sh.name, bit, detail)
+			}
 			cnt(&res, "transitions", 1)
 			region := c03Region(bit/8, sh)
 			if f := c03Judge(ok, after, present, sh, sh.basis, sh.basis != nil, fmt.Sprintf("bit %d (byte %d, %s)", bit, bit/8, region), detail, "region", region, "role", fmt.Sprint(c.role), "shape", sh.name); f != nil {
@@ -161,6 +191,26 @@ func c03BuildFlips(tier string) core.Source {
 		res.Outcome = fmt.Sprintf("rejected>0=%v/accepted>0=%v", rejected > 0, accepted > 0)
 		return res
 	}}
+}
+
+// c03DeclaresHuge walks the token words of a data segment (index, 4 header
+// words, tokens) and reports a literal token of 16 MiB or more.
+func c03DeclaresHuge(raw []byte) bool {
+	for pos := 20; pos+4 <= len(raw); {
+		v := int32(binary.LittleEndian.Uint32(raw[pos:]))
+		switch {
+		case v == 0:
+			return false
+		case v > 0:
+			if v >= 1<<24 {
+				return true
+			}
+			pos += 4 + int(v)
+		default:
+			pos += 4
+		}
+	}
+	return false
 }
 
 func c03Region(off int, sh c03Shape) string {
@@ -344,8 +394,8 @@ func init() {
 	core.Register(&core.Prop{
 		ID:    "C03",
 		Level: "model_checking",
-		Rule: "flips: every single-bit flip at every bit position of the file's data segment (index word, echoed head, every token word, every literal byte, end marker, 16-byte trailer) for three file shapes (whole-file, pure-delta, mixed) in both receiver roles, each as one real session fed by the scripted reference sender; tokenfaults: every substitution of a block reference by another valid one, changed/shortened literals, all transpositions, duplications and deletions of 3 streams of <=5 tokens sent with the true trailer; basisedit: third-party modification of the basis between signature generation and reconstruction; control: undamaged streams are accepted. " +
-			"oracle: (error and previous content kept) or (success and destination == source); states/transitions = sessions; non-trivial = case whose damage was rejected",
+		Rule: "flips: every single-bit flip at every bit position of the file's data segment (index word, echoed head, every token word, every literal byte, end marker, 16-byte trailer) for seven file shapes (whole-file, pure-delta, mixed; whole-file with the all-zero header tridge echoes and with strong length 2; 64-byte-block delta with strong length 0 and 15) in both receiver roles (flips that turn a literal length into >= 16 MiB are skipped and counted), each as one real session fed by the scripted reference sender; tokenfaults: every substitution of a block reference by another valid one, changed/shortened literals, all transpositions, duplications and deletions of 3 streams of <=5 tokens sent with the true trailer; basisedit: third-party modification of the basis between signature generation and reconstruction; control: undamaged streams are accepted. " +
+			"oracle: (error, previous content kept and the kept file not re-stamped with the new version's time) or (success and destination == source); states/transitions = sessions; non-trivial = case whose damage was rejected",
 		Assum: []string{"MD4 collisions are not searched for", "the scripted sender half-closes its direction after its last byte so a receiver waiting for announced-but-missing bytes sees EOF"},
 		Parts: func(tier string) []core.Part {
 			return []core.Part{
